@@ -635,7 +635,7 @@ def transform_c31(text, prog, workdir):
 
 
 # ============================================================================= run-time checked builds
-def compile_run_checked(workdir, tag, sources, timeout=60):
+def compile_run_checked(workdir, tag, sources, timeout=20):
     """lib_fm.compile_run with gfortran's run-time checks switched on for the TRANSFORMED build (`-new`
     tags): code emitted by a transformation that indexes outside an array must not go unnoticed (the
     original programs are in-bounds by construction, and the machine rejects those that are not)."""
@@ -662,7 +662,11 @@ def compile_run_checked(workdir, tag, sources, timeout=60):
         return 'timeout', '', 'run timeout'
     if r.returncode != 0:
         return 'runtime-error', r.stdout, r.stderr[-2000:]
-    return 'ok', r.stdout, r.stderr
+    out = r.stdout
+    if os.environ.get('VERIF_CORRUPT') and tag.endswith('-new'):
+        # development aid (binding demonstration): corrupt one recorded value of the transformed run
+        out = re.sub(r'^I (-?\d+)$', lambda m: f'I {int(m.group(1)) + 1}', out, count=1, flags=re.M)
+    return 'ok', out, r.stderr
 
 
 class checked_builds:
@@ -977,8 +981,75 @@ class CPGen(LoopGen):
         self.functions = [f1]
         return [f1]
 
+    def scenario(self):
+        """A short top-level statement sequence in which a variable holds a literal constant and is then (maybe)
+        redefined in one of the ways a forward propagation has to respect."""
+        rng = self.rng
+        t, u = rng.sample(['t1', 't2', 'k'], 2)
+        c1, c2 = rng.randint(0, 6), rng.randint(0, 6)
+        use = assign(V(u), self.bounded(op('sum', V(t), V(u))))
+        kinds = ['zerotrip', 'carried', 'condassign', 'dynindex', 'loopkill', 'nested-if']
+        if 'call' in self.f and self.helpers:
+            kinds += ['call', 'call']
+        if 'while' in self.f:
+            kinds += ['while', 'while']
+        if 'exitcycle' in self.f:
+            kinds += ['exit', 'cycle']
+        if 'assoc' in self.f:
+            kinds += ['assoc', 'assoc']
+        if 'section' in self.f:
+            kinds += ['section', 'section']
+        if 'select' in self.f:
+            kinds += ['select', 'select']
+        kind = rng.choice(kinds)
+        head = [assign(V(t), N(c1))]
+        if kind == 'call':
+            names = [h['unit']['name'] for h in self.helpers]
+            if 'h2' in names and not self.unused:
+                mid = [{'s': 'call', 'name': 'h2', 'args': [V(t), op('sum', V('n'), N(1))]}]
+            elif 'h1' in names and not self.unused:
+                mid = [{'s': 'call', 'name': 'h1', 'args': [V('ia'), op('sum', V('m'), N(1)), V(t)]}]
+            else:
+                mid = []
+        elif kind == 'zerotrip':
+            lo = rng.randint(1, 3)
+            mid = [do_('i', N(lo), N(lo - rng.randint(1, 2)), [assign(V(t), N(c2))])]
+        elif kind == 'carried':
+            mid = [do_('i', N(1), N(rng.randint(2, 3)), [use, assign(V(t), rng.choice([N(c2), op('sum', V(t), N(1))]))])]
+        elif kind == 'loopkill':
+            mid = [do_('i', N(1), rng.choice([N(2), call('min', V('n'), N(3))]), [assign(V(t), op('sum', V('i'), N(c2)))])]
+        elif kind == 'condassign':
+            mid = [if_(self.cond(self.int_scalars_noarr), [assign(V(t), N(c2))], inline=rng.random() < 0.5)]
+        elif kind == 'nested-if':
+            mid = [if_(V('flag'), [if_(cmp_('>', V('n'), N(1)), [assign(V(t), N(c2))])], [assign(V(u), N(c2))])]
+        elif kind == 'dynindex':
+            e = rng.randint(0, 4)
+            return [assign(el('ia', N(e)), N(c1)), assign(el('ia', call('mod', call('abs', V('n')), N(5))), N(c2)),
+                    assign(V(u), self.bounded(op('sum', el('ia', N(e)), V(u))))]
+        elif kind == 'while':
+            mid = [assign(V('w'), N(0)), {'s': 'while', 'cond': cmp_('<', V('w'), N(rng.randint(1, 3))),
+                                          'body': [use, assign(V(t), N(c2)), assign(V('w'), op('sum', V('w'), N(1)))]}]
+        elif kind in ('exit', 'cycle'):
+            mid = [do_('i', N(1), N(3), [if_(cmp_('>', op('sum', V('i'), V('n')), N(2)), [{'s': kind}], inline=True), assign(V(t), N(c2))])]
+        elif kind == 'assoc':
+            mid = [{'s': 'assoc', 'names': ['z9'], 'targets': [V(t)], 'body': [assign(V('z9'), op('sum', V('z9'), N(c2 + 1)))]}]
+        elif kind == 'section':
+            e = rng.randint(0, 4)
+            return [assign(el('ia', N(e)), N(c1)), assign(V('ia'), op('sum', V('ia'), N(c2 + 1))),
+                    assign(V(u), self.bounded(op('sum', el('ia', N(e)), V(u))))]
+        else:   # select
+            mid = [{'s': 'select', 'e': call('mod', call('abs', V('n')), N(3)),
+                    'cases': [{'lo': 0, 'hi': 0, 'body': [assign(V(t), N(c2))]}, {'lo': 1, 'hi': 1, 'body': [assign(V(u), N(c2))]}],
+                    'default': [assign(V(t), N(c2 + 1))] if rng.random() < 0.5 else []}]
+        return head + mid + [use]
+
     def program(self, nstmts=6, depth=2):
         prog = super().program(nstmts, depth)
+        if self.family.startswith(('cp', 'all-')):
+            body = prog['units'][0]['body']
+            for _ in range(self.rng.choice([1, 1, 2])):
+                pos = self.rng.randint(5, len(body))
+                body[pos:pos] = self.scenario()
         if self.unused:
             k = prog['units'][0]
             # unused locals (scalar, array, real) and a local array that IS used
